@@ -1365,15 +1365,8 @@ class Repository:
             path,
             offset,
         )
-        try:
-            file = path.open('r+b')
-        except FileNotFoundError:
-            path.parent.mkdir(parents=True, exist_ok=True)
-            file = path.open('wb')
-
-        with file:
-            file_end = file.seek(0, io.SEEK_END)
-            file.truncate(max(file_end, offset + len(data)))
+        # The file has already been created with its final length (see restore)
+        with path.open('r+b') as file:
             file.seek(offset)
             file.write(data)
 
@@ -1509,6 +1502,7 @@ class Repository:
         chunks_references = defaultdict(list)
         files_digests = {}
         files_metadata = {}
+        files_sizes = {}
         total_bytes = 0
 
         for snapshot_body in snapshots:
@@ -1546,6 +1540,7 @@ class Repository:
                     )
                     chunk_position += chunk_size
 
+                files_sizes[file_path] = chunk_position
                 total_bytes += chunk_position
 
         bytes_tracker = tqdm(
@@ -1567,12 +1562,18 @@ class Repository:
         )
 
         with finished_tracker, bytes_tracker:
+            # Give every file its final length up front, so that the result does
+            # not depend on whatever already exists at the target path
+            for file_path, (restore_path, _) in files_metadata.items():
+                restore_path.parent.mkdir(parents=True, exist_ok=True)
+                with restore_path.open('wb') as file:
+                    file.truncate(files_sizes[file_path])
+
             # Files without any chunk references are never visited by the chunk
-            # loaders; create them here
+            # loaders; finish them here
             for file_path, digests in files_digests.items():
                 if not digests:
                     restore_path, metadata = files_metadata.pop(file_path)
-                    self._write_file_part(restore_path, b'', 0)
                     self.restore_metadata(restore_path, metadata)
                     finished_tracker.update()
 
